@@ -80,7 +80,7 @@ def build_roots(tier):
         add(nm, 'pub fn %s() -> %s<f32> { %s::%s() }' % (nm, K, K, f), kind='consts', e=e)
     # shuffles
     for K, flds in (('Vec4', 'xyzw'), ('Rgba', 'rgba')):
-        masks = list(itertools.product(range(4), repeat=4)) if K == 'Vec4' else [m for i, m in enumerate(itertools.product(range(4), repeat=4)) if i % 5 == 0]
+        masks = list(itertools.product(range(4), repeat=4)) if (K == 'Vec4' or tier == 'thorough') else [m for i, m in enumerate(itertools.product(range(4), repeat=4)) if i % 5 == 0]
         for (a, b, c, d) in masks:
             nm = 'r_shlh_%s_%d%d%d%d' % (K, a, b, c, d)
             add(nm, 'pub fn %s(lo: %s<f32>, hi: %s<f32>) -> %s<f32> { %s::shuffle_lo_hi(lo, hi, (%d, %d, %d, %d)) }' % (nm, K, K, K, K, a, b, c, d), kind='shuf2', idx=(a, b, c, d), flds=flds)
@@ -181,6 +181,11 @@ def run(ctx):
             f = 'rgba'[:m['n']]; full = C(m['full'])
             E = [full - sym('a0.' + c) for c in 'rgb'] + ([sym('a0.a')] if m['n'] == 4 else [])
             vec_eq(ctx, key, p.ret, E, 'alg=: inverted_rgb = full - component, alpha untouched', w)
+            if m['n'] == 4:
+                # provenance: alpha is the input leaf itself (moved/copied), not a recomputed value that merely equals it in exact arithmetic
+                raw = p.d['ret']['a'][3] if isinstance(p.d.get('ret'), dict) and 'a' in p.d['ret'] else None
+                term = rs.sem.terms[raw['t']] if isinstance(raw, dict) and 't' in raw else None
+                ctx.ob(key + '/alpha-untouched', term is not None and term[0] == 'in' and term[1] == 'a0.a', 'perm: alpha is passed through unmodified (an unmodified copy of the input element, not a value recomputed from it)', w, 'input leaf a0.a', term)
         elif k == 'avg':
             ctx.same(key, p.ret, (sym('a0.r') + sym('a0.g') + sym('a0.b')) / C(3), 'alg=: average_rgb = (r+g+b)/3', w)
         elif k == 'embed':
